@@ -81,7 +81,20 @@ CLAIMED.update({
             "executing (short, long) pairs derived from generated calls on identical data",
             "Coq theorems on the spec + pairwise short/long correspondence", "DESIGN.md 3/C07"),
 })
-EXTRA_NOTES = {"C10": "Partial: pre-emption inside C code (functools.cache, dict operations) and the tracing/compilation part of a call are not scheduled; only the registry methods are. ",
+CLAIMED.update({
+    "C13": ("Theorems (Props/C13.v) over the kernel regenerated from namedtensor_calltensorfactory.py: only name/arg_index/signature are "
+            "offered, a factory without **kwargs receives only keywords it declares, with **kwargs all; histories with recording factories "
+            "of six signature kinds at every subset of positions check: one invocation per execution (first, cached, other signature), the "
+            "resolved shape as tuple of ints, equality with passing the produced tensor, never for graph=True or rejected calls, wrong "
+            "type/shape fails; the traced program is evaluated node by node by the extracted model: exactly one call of every factory input",
+            "Coq theorems over a regenerated kernel + recording-factory histories + extracted node-by-node evaluation of the traced program", "DESIGN.md 3/C13"),
+    "C15": ("Theorems (Props/C15.v) over the kernel regenerated from _expr_to_axis: axis= is exactly the ascending list of bracket positions; "
+            "recording user functions under adapt_numpylike_reduce / adapt_numpylike_elementwise: value vs the extracted reference plan with "
+            "the user function as elementary operation, received arguments vs the documentation, keyword-only forwarding (also on cache "
+            "hits), axis/keyword clash, wrong type/shape/arity returns",
+            "Coq theorems over a regenerated kernel + value/argument correspondence with recording user functions", "DESIGN.md 3/C15"),
+})
+EXTRA_NOTES = {"C15": "adapt_with_vmap is not exercised: no framework offering vmap is importable in this sandbox (stated in DESIGN.md). ", "C10": "Partial: pre-emption inside C code (functools.cache, dict operations) and the tracing/compilation part of a call are not scheduled; only the registry methods are. ",
                "C11": "The refinement theorem model-get = select is not yet proved for all histories (stated in DESIGN.md); the model is tied to the code by correspondence. "}
 
 
